@@ -326,7 +326,8 @@ Proof. exact preimage_adjacency_needed. Qed.
     - universal quantification: \A x'. x \/ x' = x as a preimage, and
       (\A x. x \/ x')[x / x'] = x as an image;
     - [image] refuses a rename target that is neither quantified nor absent
-      from the operands ([AssertionError]), leaving the manager unchanged. *)
+      from the operands ([AssertionError]; the manager is then unchanged by
+      [C13_image_checks_then_recursion]). *)
 Example C13_nonvacuous :
   let run := fold_left (fun w o => fst (step w 0 o)) in
   let w := run [ONew [(0, 0); (1, 1); (2, 2); (3, 3)]; OVar 0; OVar 1; OVar 2; OVar 3;
@@ -352,7 +353,5 @@ Example C13_nonvacuous :
   snd (step w 0 (OPreimage 15 1 true [] true [1] true)) = Ok (VZ 2) ∧
   snd (step w 0 (OImage 15 1 true [(1, 0)] true [0] true)) = Ok (VZ 2) ∧
   snd (step w 0 (OImage (-12) (-13) true [(1, 0); (3, 2)] true [2] false))
-    = Err EAssert ∧
-  world_get (fst (step w 0 (OImage (-12) (-13) true [(1, 0); (3, 2)] true [2] false))) 0
-    = s.
+    = Err EAssert.
 Proof. by vm_compute. Qed.
